@@ -563,7 +563,10 @@ struct StreamActors : Family {
 		uint64_t len;
 		switch (r.below(8)) {
 		case 0: len = r.below(3); break;
-		case 1: len = r.chance(1, 4) ? boundarySize(r, thorough ? 16 : 14) : r.below(17); break;
+		case 1: // on or next to a power of two / a multiple of 4096 or 8192 (stream buffers), else tiny
+			if (r.chance(1, 4)) { uint64_t base = r.chance(1, 3) ? (r.chance(1, 2) ? 4096 : 8192) * r.range(1, 4) : 1ull << r.range(8, thorough ? 16 : 14); len = base + r.below(3) - 1; }
+			else len = r.below(17);
+			break;
 		case 2: len = r.chance(1, thorough ? 4 : 10) ? r.range(4000, thorough ? 70000 : 20000) : r.range(100, 600); break;
 		default: len = r.below(301); break;
 		}
